@@ -209,6 +209,27 @@ func c08Run(c *Ctx) {
 			}
 		}
 	}
+	// 3h. names may start with an underscore, in every declaring and using position
+	for _, n := range []string{"_", "_x", "__", "_1", "_\u0995", "x_", "_tmp_2"} {
+		for _, src := range []string{Var(n, "1") + " " + Print(n), K["var"] + " a = 1, " + n + " = 2;", Fun(n, "", "") + " " + n + "();", Fun("f", n, " "+Print(n)+" ") + " f(1);", "o = {" + n + ": 1}; o." + n + " = 2;", For(Var(n, "0"), n+" < 1", n+" = "+n+" + 1", "{ }"), n + " = 1;", Fun("g", "a, "+n, " "+Ret("a")+" ")} {
+			if c.Mine() {
+				judge(&Case{Gen: "underscore-names", Src: src})
+			}
+			if c.Mine() {
+				judge(&Case{Gen: "underscore-names-cli", Mode: "cli", Src: src})
+			}
+		}
+	}
+	// 3i. a valid text that fails while running is not a rejected text (status 70, not 65), through the binary
+	for _, f := range c06Faults() {
+		body := Print(f.expr)
+		if f.stmt != "" {
+			body = f.stmt
+		}
+		if c.Mine() {
+			judge(&Case{Gen: "valid-but-failing-cli", Mode: "cli", Src: Lines(append(c06Prelude(), Print(`"start"`), body, Print(`"end"`))...)})
+		}
+	}
 	// 4. reserved names and the parameter limit
 	names := []string{"input"}
 	for _, n := range ref.BI {
@@ -473,8 +494,8 @@ func c08CLI(c *Ctx, cs *Case) {
 			return
 		}
 		c.Count("cli_rejected_clean", 1)
-	} else if o.Exit == 65 {
-		c.Violate(Violation{Why: "valid text rejected by the CLI", Observed: describeObs(o), Signature: "cli-false-reject"})
+	} else if o.Exit == 65 || len(ParseDiags(o.Stderr)) > 0 && ParseDiags(o.Stderr)[0].Channel != "runtime" {
+		c.Violate(Violation{Why: "valid text rejected by the CLI (status 65 or a static diagnostic)", Observed: describeObs(o), Signature: "cli-false-reject"})
 		return
 	}
 	c.Nontrivial("cli|" + cs.Src)
@@ -488,7 +509,7 @@ func init() {
 		Run:         c08Run,
 		Judge:       c08Judge,
 		MustCount: func(c *Ctx) []string {
-			return []string{"accepted", "rejected_syntax", "rejected_lexical", "rejected_assign_target", "gen:nothing-runs", "gen:deep-nest", "gen:param-limit", "gen:reserved-names", "gen:assignment-targets", "gen:literal-forms", "gen:code-point-classes", "gen:statement-positions", "gen:separators", "gen:file-edges-cli", "gen:long-lines-cli", "gen:many-constructs", "cli_rejected_clean", "gen:prefix-extension"}
+			return []string{"accepted", "rejected_syntax", "rejected_lexical", "rejected_assign_target", "gen:nothing-runs", "gen:deep-nest", "gen:param-limit", "gen:reserved-names", "gen:assignment-targets", "gen:literal-forms", "gen:code-point-classes", "gen:statement-positions", "gen:separators", "gen:underscore-names", "gen:valid-but-failing-cli", "gen:file-edges-cli", "gen:long-lines-cli", "gen:many-constructs", "cli_rejected_clean", "gen:prefix-extension"}
 		},
 	})
 }
